@@ -1084,6 +1084,47 @@ theorem fresh_state (next : Nat) (i1 i2 : RenderIn) :
     have b := allocated_range (render next i1).next i2 id h
     omega
 
+/-- The `LayoutContext` of a render (with everything its constructor creates: caches, lists of pending boxes) is an
+object that render allocates. -/
+theorem context_allocated (next : Nat) (i : RenderIn) :
+    (render next i).context ∈ allocated (render next i).events := by
+  rw [allocated_render]
+  simp [render]
+
+private theorem renderAll_context_ge (next : Nat) (ins : List RenderIn) :
+    ∀ o ∈ renderAll next ins, next ≤ o.context := by
+  induction ins generalizing next with
+  | nil => intro o h; simp [renderAll] at h
+  | cons i rest ih =>
+    intro o h
+    simp only [renderAll, List.mem_cons] at h
+    rcases h with h | h
+    · subst h
+      exact (allocated_range next i _ (context_allocated next i)).1
+    · have := ih (render next i).next o h
+      have := render_next_gt next i
+      omega
+
+/-- **context_state_fresh** (any history, any number of renders): the layout contexts of the renders of a process are
+pairwise different objects — no cache of a `LayoutContext` (`strut_layouts`, `tables`, `font_features`,
+`dictionaries`, …: everything `LayoutContext.__init__` creates) is the cache of another render.  The `render-state`
+correspondence compares this with the real objects (`shared=`: instance *and class* attributes). -/
+theorem context_state_fresh (next : Nat) (ins : List RenderIn) :
+    ((renderAll next ins).map (·.context)).Pairwise (· ≠ ·) := by
+  induction ins generalizing next with
+  | nil => simp [renderAll]
+  | cons i rest ih =>
+    simp only [renderAll, List.map_cons, List.pairwise_cons]
+    refine ⟨?_, ih _⟩
+    intro c hc
+    obtain ⟨o, ho, rfl⟩ := List.mem_map.mp hc
+    have h1 := renderAll_context_ge (render next i).next rest o ho
+    have h2 := (allocated_range next i _ (context_allocated next i)).2
+    omega
+
+example : ((renderAll 1000 [⟨none, none, .none, none, false⟩, ⟨some 1, none, .dict 2, some [.raw], true⟩,
+    ⟨some 1, none, .dict 2, none, false⟩]).map (·.context)) = [1009, 1020, 1030] := by decide
+
 /-- The objects created by two successive renders are disjoint. -/
 theorem allocations_disjoint (next : Nat) (i1 i2 : RenderIn) :
     ∀ id ∈ allocated (render next i1).events, id ∉ allocated (render (render next i1).next i2).events := by
@@ -1387,6 +1428,18 @@ theorem lookup_insert_ne (c : Cache) (k k' : String) (v : Entry) (h : k ≠ k') 
 def Exclusive (f : Fetcher) : Prop :=
   ∀ url mime file blob, f url = .ok mime file blob → ¬ (blob.svgOk = true ∧ blob.raster.isSome = true)
 
+theorem storeRaster_value (opts : Opts) (c : Cache) (id : String) (fmt : OutFmt) (p : Payload)
+    (file : Option String) :
+    (storeRaster opts c id fmt p file).1 = (storeRaster opts [] id fmt p file).1 ∧
+    ((storeRaster opts c id fmt p file).2 = c ∨
+      (storeRaster opts c id fmt p file).2 = insert c (dataKey id opts.dpi) (.bytes p)) := by
+  unfold storeRaster
+  split
+  · split
+    · exact ⟨rfl, Or.inl rfl⟩
+    · exact ⟨rfl, Or.inr rfl⟩
+  · exact ⟨rfl, Or.inr rfl⟩
+
 theorem makeRaster_value (opts : Opts) (c : Cache) (key : String) (blob : Blob) (r : Raster)
     (file : Option String) (o : Orientation) :
     (makeRaster opts c key blob r file o).1 = (makeRaster opts [] key blob r file o).1 ∧
@@ -1394,11 +1447,15 @@ theorem makeRaster_value (opts : Opts) (c : Cache) (key : String) (blob : Blob) 
       ∃ p, (makeRaster opts c key blob r file o).2 = insert c (dataKey (imageId key) opts.dpi) (.bytes p)) := by
   unfold makeRaster
   simp only
-  split
-  · split
-    · exact ⟨rfl, Or.inl rfl⟩
-    · exact ⟨rfl, Or.inr ⟨_, rfl⟩⟩
-  · exact ⟨rfl, Or.inr ⟨_, rfl⟩⟩
+  cases (rasterPlan opts blob r file o).1 with
+  | true => exact ⟨rfl, Or.inl rfl⟩
+  | false =>
+    simp only [Bool.false_eq_true, if_false]
+    refine ⟨congrArg some (storeRaster_value opts c _ _ _ _).1, ?_⟩
+    rcases (storeRaster_value opts c (imageId key) (rasterPlan opts blob r file o).2.1
+      (rasterPlan opts blob r file o).2.2.1 (rasterPlan opts blob r file o).2.2.2).2 with h | h
+    · exact Or.inl h
+    · exact Or.inr ⟨_, h⟩
 
 private theorem decode_value (opts : Opts) (c : Cache) (url key forced forced' : String) (mime : Option String)
     (file : Option String) (blob : Blob) (o : Orientation)
@@ -1419,7 +1476,7 @@ private theorem decode_value (opts : Opts) (c : Cache) (url key forced forced' :
       | true => exact absurd ⟨h, by simp [hr]⟩ hx
     simp only [hs, Bool.false_eq_true, and_false, if_false]
     obtain ⟨m1, m2⟩ := makeRaster_value opts c key blob r file o
-    exact ⟨congrArg some m1, m2⟩
+    exact ⟨m1, m2⟩
 
 /-- Every image entry of the cache is the value a cold call returns for the request (URL, orientation, image options)
 it is keyed by. -/
@@ -1571,11 +1628,16 @@ private theorem decode_cache_uniform (opts : Opts) (url key forced : String) (mi
     · simp only [if_neg h1]
       unfold makeRaster
       simp only
-      split
-      · split
-        · left; intro c; rfl
+      cases (rasterPlan opts blob r file o).1 with
+      | true => left; intro c; rfl
+      | false =>
+        simp only [Bool.false_eq_true, if_false]
+        unfold storeRaster
+        split
+        · split
+          · left; intro c; rfl
+          · right; exact ⟨_, fun c => rfl⟩
         · right; exact ⟨_, fun c => rfl⟩
-      · right; exact ⟨_, fun c => rfl⟩
 
 /-- Every image entry is the cold value for its request **and** the cache still holds every bytes entry the cold call
 stores for it (nothing another request did has replaced them). -/
@@ -1765,7 +1827,7 @@ theorem payload_consistent_history (f : Fetcher) (hx : Exclusive f) (c : Cache) 
 /-- Non-vacuity of `payload_transparent`: JPEG requests with three different option sets sharing one cache — each
 image's data key holds the bytes of its own options (original / quality 5 / optimised re-encoding). -/
 example :
-    let fetcher : Fetcher := fun _ => .ok (some "image/jpeg") none ⟨1, false, some ⟨.jpeg, false⟩⟩
+    let fetcher : Fetcher := fun _ => .ok (some "image/jpeg") none ⟨1, false, some ⟨.jpeg, false, true⟩⟩
     let calls : List Call := [⟨"u", "", .none, ⟨false, some 5, none⟩⟩, ⟨"u", "", .none, ⟨false, none, none⟩⟩,
       ⟨"u", "", .none, ⟨true, none, none⟩⟩, ⟨"u", "", .none, ⟨false, some 5, none⟩⟩]
     (runCalls fetcher [] calls).map (fun r =>
@@ -1781,10 +1843,34 @@ example :
              some (.bytes (.reenc 1 .none .jpeg true none)), some (.bytes (.reenc 1 .none .jpeg false (some 5)))])] := by
   decide
 
+/-- An image in a format that is neither JPEG nor PNG is always re-encoded: if Pillow cannot write it, the
+constructor raises, whatever the options and the orientation. -/
+theorem rasterPlan_other_fails (opts : Opts) (blob : Blob) (r : Raster) (file : Option String) (o : Orientation)
+    (hf : r.fmt = .other) (he : r.encodable = false) : (rasterPlan opts blob r file o).1 = true := by
+  simp [rasterPlan, hf, he]
+
+/-- **unencodable_fails_closed** (d7dc388): when the `RasterImage` constructor raises (Pillow opened the image but
+cannot write it), `get_image_from_uri` returns `None` like for any other loading error — it does not raise —, caches
+that `None` under the request's key, stores no bytes, and fetched exactly once; by `cache_transparent` every later
+request gets the same `None` without fetching again. -/
+theorem unencodable_fails_closed (f : Fetcher) (opts : Opts) (c : Cache) (url forced : String) (o : Orientation)
+    (mime file : Option String) (blob : Blob) (r : Raster) (hf : f url = .ok mime file blob)
+    (hr : blob.raster = some r) (hs : blob.svgOk = false) (hl : lookup c (keyStr url o opts) = none)
+    (hp : (rasterPlan opts blob r file o).1 = true) :
+    getImage f opts c url forced o =
+      ⟨.ok (.image none), insert c (keyStr url o opts) (.image none), [url]⟩ := by
+  simp [getImage, hl, hf, decode, hr, hs, makeRaster, hp]
+
+example :
+    let f : Fetcher := fun _ => .ok (some "image/tiff") none ⟨7, false, some ⟨.other, false, false⟩⟩
+    (runCalls f [] [⟨"u", "", .none, ⟨false, none, none⟩⟩, ⟨"u", "image/png", .none, ⟨false, none, none⟩⟩]).map
+        (fun r => (r.value.toOption, r.fetched, r.cache.length)) =
+      [(some (.image none), ["u"], 1), (some (.image none), [], 1)] := by decide
+
 /-- A fetcher / history on which the hypotheses hold and the cache is really used — with options that change between
 the calls (the same URL under other options is fetched again; the same request is a hit). -/
-example : Exclusive (fun _ => Fetched.ok (some "image/png") none ⟨1, false, some ⟨.png, false⟩⟩) ∧
-    ((runCalls (fun _ => Fetched.ok (some "image/png") none ⟨1, false, some ⟨.png, false⟩⟩) []
+example : Exclusive (fun _ => Fetched.ok (some "image/png") none ⟨1, false, some ⟨.png, false, true⟩⟩) ∧
+    ((runCalls (fun _ => Fetched.ok (some "image/png") none ⟨1, false, some ⟨.png, false, true⟩⟩) []
       [⟨"u", "", .none, ⟨false, none, none⟩⟩, ⟨"u", "", .angle .q90 false, ⟨false, none, none⟩⟩,
        ⟨"u", "", .none, ⟨true, some 5, none⟩⟩, ⟨"u", "", .none, ⟨false, none, none⟩⟩]).map (·.fetched)) =
       [["u"], ["u"], ["u"], []] := by
@@ -1798,7 +1884,7 @@ example : Exclusive (fun _ => Fetched.ok (some "image/png") none ⟨1, false, so
 to a render with default options — the second call fetches again, and the bytes stored for its image are the original
 JPEG bytes, as on a cold cache; the quality-5 bytes stay under their own key. -/
 example :
-    let fetcher : Fetcher := fun _ => .ok (some "image/jpeg") none ⟨1, false, some ⟨.jpeg, false⟩⟩
+    let fetcher : Fetcher := fun _ => .ok (some "image/jpeg") none ⟨1, false, some ⟨.jpeg, false, true⟩⟩
     let low : Opts := ⟨false, some 5, none⟩
     let dflt : Opts := ⟨false, none, none⟩
     let warm := (getImage fetcher low [] "u" "" .none).cache
